@@ -64,5 +64,17 @@ Script08Next ==
         [] steps = 5 -> AnyCmd
         [] OTHER -> FALSE
 Script08Spec == InitIndexed /\ idle = 0 /\ [][Script08Next]_<<vars, idle>>
+\* Second directed scenario for C13: a page whose index entry holds TWO notes is replaced after its FIRST note was edited - the
+\* old row of the edited note is gone before the old row of the second one; a kill in between must not make the rerun forget
+\* that the first note was edited (its modify date).
+Script13bNext ==
+  /\ idle' = idle
+  /\ CASE steps = 0 -> NextDay
+        [] steps = 1 -> \E p \in Pages, kp \in Kinds : AddNote(p, 1, kp, 0, 1, 1)
+        [] steps = 2 -> DbReindex({})
+        [] steps = 3 -> \E p \in Pages : Len(files[p].notes) >= 2 /\ EditBody(p, 1)
+        [] steps = 4 -> DbReindex({})
+        [] OTHER -> FALSE
+Script13bSpec == InitIndexed /\ idle = 0 /\ [][Script13bNext]_<<vars, idle>>
 ScriptSpec == InitIndexed /\ idle = 0 /\ [][ScriptNext]_<<vars, idle>>
 =============================================================================
